@@ -22,28 +22,28 @@ type SimStream struct {
 	s    *simrt.Sim
 	Name string
 
-	mu     sync.Mutex
-	open   bool
-	Epoch  int // incremented by every successful Open
-	wire   []wireItem
-	in     []byte
-	inErr  error
-	inWake chan struct{}
+	mu         sync.Mutex
+	open       bool
+	Epoch      int // incremented by every successful Open
+	wire       []wireItem
+	in         []byte
+	inErr      error
+	inWake     chan struct{}
 	devPending bool
-	never  chan struct{}
-	out    []byte
-	seq    int
-	ended  bool
+	never      chan struct{}
+	out        []byte
+	seq        int
+	ended      bool
 
 	// hooks (called without st.mu held)
-	OnFrame     func(frame []byte)        // complete frame written by the system under test
-	OnDelivered func(seq int)             // inbound item seq fully readable
-	OnOpen      func(epoch int)           // after a successful Open
-	OnClose     func(epoch int)           // after Close by the system under test
-	OnReadErr   func(epoch int, err error) // a Read call returned the injected end/error
-	OnOpenWhileOpen func() // Open called on an open stream (returns ALREADY_OPEN)
-	OnStaleRead func(readerEpoch, epoch int) // a read loop started for an earlier open reads the current connection
-	openSteps   []int
+	OnFrame         func(frame []byte)           // complete frame written by the system under test
+	OnDelivered     func(seq int)                // inbound item seq fully readable
+	OnOpen          func(epoch int)              // after a successful Open
+	OnClose         func(epoch int)              // after Close by the system under test
+	OnReadErr       func(epoch int, err error)   // a Read call returned the injected end/error
+	OnOpenWhileOpen func()                       // Open called on an open stream (returns ALREADY_OPEN)
+	OnStaleRead     func(readerEpoch, epoch int) // a read loop started for an earlier open reads the current connection
+	openSteps       []int
 	// fault plan: consulted with the 0-based index of the call within the run
 	OpenFault  func(i int) error
 	CloseFault func(i int) error
